@@ -270,8 +270,18 @@ class ANDCacheWrite(CacheWriteMixin, ANDEval):
 
 
 class ElseIfCacheWrite(CacheWriteMixin, ElseIfEval):
+    """... and (C12, C05): the else-if's result cache holds truth values, not which conclusion a conclusion selector selected,
+    so a right operand that selects conclusions (an Alternative / Next under the else-if of a rule tree) is evaluated and
+    never looked up in / replayed from right_cache."""
     trusted = tuple(getattr(ElseIfEval, 'trusted', ())) + CacheWriteMixin.trusted_keys
-    props = ('C05', 'C01', 'C02', 'C03', 'C04', 'C18')
+    props = ('C05', 'C01', 'C02', 'C03', 'C04', 'C18', 'C12')
+
+    def obj_cache_check(self, eng, st, recv, args, kwargs, node):
+        n = st.ghost['self']
+        if recv.data['which'] == 'right_cache' and recv.data['of'].eq(n):
+            eng.oblige(st, f"C12/else-if@L{node.lineno}/a-conclusion-selecting-right-operand-is-not-replayed-from-the-result-cache",
+                       z3.Not(Z.selects_conclusions(Z.f_right(n))), line=node.lineno)
+        return super().obj_cache_check(eng, st, recv, args, kwargs, node)
 
 
 CONTRACTS += [ComparatorCacheWrite, ANDCacheWrite, ElseIfCacheWrite]
